@@ -89,19 +89,23 @@ def evaluate(cfg, r):
             if d is None or d[0] != F.RACER:
                 out.append(('dest_intact_on_failure', 'destination appears during the save (overwrite=False)', 'dest %r' % (sh(d),)))
         elif d != pre_d:
-            out.append(('dest_intact_on_failure', None, 'dest before %r after %r' % (sh(pre_d), sh(d))))
+            sym = ('destination removed' if d is None else 'destination created' if pre_d is None else
+                   'destination content changed' if d[0] != pre_d[0] else
+                   'destination permissions changed' if d[1] != pre_d[1] else 'destination replaced by an identical file')
+            out.append(('dest_intact_on_failure', sym, 'dest before %r after %r' % (sh(pre_d), sh(d))))
         part_bad = False
         if cfg['ppresent'] and not cfg['overwrite_part']:
             if p != pre_p:
                 part_bad = True
-                out.append(('preexisting_part_not_reused', None, 'part before %r after %r' % (sh(pre_p), sh(p))))
+                out.append(('preexisting_part_not_reused', 'pre-existing part file removed' if p is None else 'pre-existing part file rewritten or replaced',
+                            'part before %r after %r' % (sh(pre_p), sh(p))))
         elif rm_part and not unlink_fault and p is not None and p != pre_p:
             part_bad = True
             out.append(('part_removed_on_failure', None, 'part file left behind: %r (exception: %r)' % (sh(p), exc)))
         if (not refusal and not r.get('racer_ran') and (rm_part or cfg['overwrite_part']) and not unlink_fault
                 and not part_bad and 'retry_exc' in r):
             rd = r['retry_dest']
-            if r['retry_exc'] is not None or rd is None or rd[0] != new or rd[1] != expected_mode(cfg) or r['retry_part'] is not None:
+            if r['retry_exc'] is not None or rd is None or rd[0] != new or r['retry_part'] is not None:
                 out.append(('retry_succeeds', None, 'retry: exc %r dest %r part %r' % (r['retry_exc'], sh(rd), sh(r['retry_part']))))
     else:
         if refusal:
@@ -110,13 +114,14 @@ def evaluate(cfg, r):
         elif r.get('racer_ran'):
             out.append(('overwrite_false_refuses', 'destination appears during the save (overwrite=False)', 'the racer\'s file was replaced'))
         elif body == 'raise':
-            out.append(('dest_intact_on_failure', 'body raises', 'the body raised but the destination was replaced: %r' % (sh(d),)))
+            out.append(('dest_intact_on_failure', 'destination replaced although the save failed', 'the body raised but dest is %r' % (sh(d),)))
         else:
-            sw = [(i, e['op']) for i, e in fl if e['op'] in NAMED and i < pub]
-            if sw:
-                out.append(('oserror_reaches_caller', None, 'OSError injected at %r was absorbed and the save completed (exception seen: %r)' % (sw, exc)))
-            elif exc is not None and not any(i >= pub for i, _ in fl):
-                out.append(('dest_intact_on_failure', 'exception after the destination was replaced', 'exception %r but dest %r' % (exc, sh(d))))
+            sw = [e['op'] for i, e in fl if e['op'] in NAMED and i < pub]
+            if sw and exc is None:
+                out.append(('oserror_reaches_caller', 'OSError at %s absorbed' % NAMED[sw[0]],
+                            'OSError injected at %r was absorbed and the save completed silently' % (sw,)))
+            elif exc is not None and (sw or not any(i >= pub for i, _ in fl)):
+                out.append(('dest_intact_on_failure', 'destination replaced although the save failed', 'exception %r but dest %r' % (exc, sh(d))))
             if not any(e['op'] in ('stat', 'lstat') for _, e in fl) and d[1] != expected_mode(cfg):
                 rule = ('explicit file_perms' if cfg.get('perms') is not None else
                         'permissions of the replaced file' if cfg['dpresent'] else 'umask default')
@@ -124,15 +129,31 @@ def evaluate(cfg, r):
     return out
 
 
-def triple(cfg, log, clause, hint):
-    fl = fired(log)
-    if not fl:
-        w = hint or static_refusal(cfg) or {'raise': 'body raises', 'racer': 'destination appears during the save (overwrite=False)'}.get(cfg.get('body'), 'fault-free save')
-        return (clause, 'atomic_save', w)
-    # the fault whose error propagates: the last one reached (clean-up unlinks aside)
-    last = ([e for _, e in fl if e['op'] not in ('unlink', 'remove')] or [fl[-1][1]])[-1]
-    w = 'OSError at %s' % GROUP.get(last['op'], last['op'])
-    return (clause, SITES.get(last['phase'], 'atomic_save'), w + ('; ' + hint if hint else ''))
+SYMPTOM_CLAUSES = ('dest_intact_on_failure', 'oserror_reaches_caller', 'preexisting_part_not_reused', 'overwrite_false_refuses', 'permission_selection')
+
+
+def cause(cfg, r):
+    """(site, wclass) of what made the save fail, read off the exception the caller received"""
+    log, exc = r['log'], r['exc']
+    name = lambda e: (SITES.get(e['phase'], 'atomic_save'), 'OSError at %s' % GROUP.get(e['op'], e['op']))  # noqa
+    k = getattr(exc, 'verif_event', None)
+    if k is not None and k < len(log):
+        return name(log[k])
+    if isinstance(exc, F.BodyError):
+        return ('atomic_save', 'body raises')
+    bad = [e for e in log if (e.get('fault') or e.get('raised')) and e['op'] not in ('unlink', 'remove', 'stat', 'lstat')]
+    if bad:
+        return name(bad[-1])
+    return ('atomic_save', static_refusal(cfg) or ('destination appears during the save (overwrite=False)'
+                                                   if r.get('racer_ran') else 'fault-free save'))
+
+
+def triple(cfg, r, clause, hint):
+    """state clauses are identified by the symptom, clean-up/propagation clauses by the failing step"""
+    if clause in SYMPTOM_CLAUSES:
+        return (clause, 'atomic_save', hint)
+    site, w = cause(cfg, r)
+    return (clause, site, w + ('; ' + hint if hint else ''))
 
 
 def snippet(cfg, faults, clause):
@@ -164,7 +185,7 @@ def run():
              part=('fault-free', 'single fault', 'pair of faults')[min(len(faults), 2)])
         res = {}
         for clause, hint, detail in evaluate(cfg, r):
-            t = triple(cfg, r['log'], clause, hint)
+            t = triple(cfg, r, clause, hint)
             if attributed and clause in attributed:
                 t = attributed[clause]
             res[clause] = t
@@ -184,16 +205,16 @@ def run():
             for body in ('ok', 'raise') + (('racer',) if not ow and not dp else ()):
                 cfg = dict(overwrite=ow, overwrite_part=owp, rm_part=rm, text=text, perms=perms, umask=um,
                            dpresent=dp, ppresent=pp, body=body, pattern='two')
-                r0, _ = one(cfg, ())
+                r0, res0 = one(cfg, ())
                 ops0 = [e['op'] for e in r0['log']]
                 single, logs = {}, {}
                 for i in range(len(ops0)):
-                    ri, single[i] = one(cfg, {i})
+                    ri, single[i] = one(cfg, {i}, res0)
                     logs[i] = [e['op'] for e in ri['log']]
                 for i in range(len(ops0) if pairs else 0):
                     for j in range(i + 1, len(logs[i])):
-                        # a pair is the same defect as a failing single when that single already breaks the clause
-                        one(cfg, {i, j}, single[i])
+                        # same defect as the fault-free run / the single fault when that already breaks the clause
+                        one(cfg, {i, j}, dict(single[i], **res0))
     finally:
         shutil.rmtree(root, ignore_errors=True)
     H.finish()
